@@ -452,6 +452,11 @@ impl<T: Qcow2IoOps> Qcow2Dev<T> {
 
     //// flush refcount table and block dirty data to disk
     pub(crate) async fn flush_refcount(&self) -> Qcow2Result<()> {
+        // Callers write mappings once this returns, so every refcount change
+        // made before has to be on disk by then. One flush in progress has
+        // cleared dirty flags already but may not have written & synced yet,
+        // so wait for it instead of finding nothing to do and returning early.
+        let _refcount_flush_lock = self.refcount_flush_lock.lock().await;
         let mut rt_written = false;
 
         loop {
